@@ -311,7 +311,7 @@ def run_case(case, ctx):
   ctx.nontrivial(len(ops) >= 1)
 
   # ---- listing of the edited file
-  if case.get("listing"):
+  if case.get("listing") and not (colon and route != "api"):
     res = runner(["@IN", "--list-items"] + cli_args(ops), text)
     ctx.count("listings_checked")
     if res["rc"] != 0:
